@@ -152,13 +152,15 @@ var propExplanationMore = map[string]string{
 	"C03": " Added: a chunk is queued still loaded only through the below-threshold edge of the window comparison, threshold at most the limit (R11); the persistent gauges move at most once per chunk event, count and bytes together (R12).",
 	"C04": " Added (R5): no failed call of the persistence tree is reported as success — the call's error is assumed non-nil and the CFG is explored path-sensitively in nil / non-nil facts (shadowed error variables, overwritten or discarded errors are found; a retry ends the path).",
 	"C05": " Added: recovered chunks are queued by an ordinary call in Start (not a goroutine), so Accept cannot overtake them (C01.R8).",
-	"C06": " Added: the permanent key slice is followed from GetOrCreate through every function that receives it; no element of it is ever rewritten, so identity is built from the values the record was routed by (R6).",
+	"C06": " Added: the permanent key slice is followed from GetOrCreate through every function that receives it; no element of it is ever rewritten, so identity is built from the values the record was routed by (R6); the directory hash is taken of the id itself, never of the sanitised name (R5).",
 	"C07": " R3 is a content taint: deep copies are identity, helpers are followed, a byte-offset cut after the cleaner re-taints.",
 	"C09": " Added: cross-record state of the parser (C15.R6) and universe-wide transient-string stores (C12.R6).",
-	"C12": " Added: universe-wide transient-string store rule over per-record code (R6); no record field aliases a long-lived scratch buffer, and per-record packages do not import unsafe outside util/strings.go (R7).",
-	"C13": " Added: cross-record state (C15.R6): timezoneCache is proved a key-determined cache; a memo must be keyed by everything its value depends on. R2 accepts a memo field that only ever holds the parser's result under err == nil.",
+	"C10": " Added: the serializer keeps nothing of a record — no transient string is stored into its fields or their elements (C12.R6), no cross-record state other than the reviewed scratch buffer (C15.R6); constructor wiring of encoder and buffer stays intact (C11.R9).",
+	"C11": " Added (R9): constructor-wired field pairs (a helper built on a buffer / channel kept in a sibling field) are enumerated from all constructors; the wired field is stored nowhere else.",
+	"C12": " R1 finds the recycle path as the call chain from Release to the record's Pool.Put (helper names do not matter). Added: universe-wide transient-string store rule over per-record code (R6); no record field aliases a long-lived scratch buffer, and per-record packages do not import unsafe outside util/strings.go (R7).",
+	"C13": " Added: cross-record state (C15.R6): timezoneCache is proved a key-determined cache; a memo must be keyed by everything its value depends on. R2 accepts a memo field that only ever holds the parser's result under err == nil. R5: the zone offset arithmetic is delegated to package time (FixedZone of time.Parse(...).Zone()); offsets computed by the module are UNDECIDED, which fails.",
 	"C15": " Added (R6): every field that per-record code of the transforms and the parser both writes and reads is a key-determined cache, a whole-input memo or one of 6 reviewed items (batched counters, a scratch buffer, the documented sampling totals).",
-	"C16": " Added: index safety of the loading / verification tree itself (R5); no check receives a never-assigned (shadowed) variable that it reads (R6); no failed check is reported as success (R7, the failure walker of C04.R5).",
+	"C16": " C07.R1 (run-time index safety of what an accepted configuration builds) is run for this property too. Added: index safety of the loading / verification tree itself (R5); no check receives a never-assigned (shadowed) variable that it reads (R6); no failed check is reported as success (R7, the failure walker of C04.R5).",
 	"C17": " R1 also requires every call on a sink value taken from a slot to run with the lock held; R4 treats a direct Close of the connection as a release of the slot key.",
 	"C19": " Added: the persistent-chunk gauges move at most once per chunk event (C03.R12); attribution: no transient string is kept as a key of the selected key set (C12.R6) and SelectMetricKeySet carries no cross-record state other than key-determined caches and reviewed items (C15.R6).",
 }
